@@ -114,6 +114,20 @@ func (conn *obfs4Conn) readPackets() error {
 	rdLen, rdErr := conn.Conn.Read(conn.readBuffer)
 	conn.receiveBuffer.Write(conn.readBuffer[:rdLen])
 
+	err := conn.decodePackets()
+
+	// Read errors (all fatal) take priority over various frame processing
+	// errors.
+	if rdErr != nil {
+		return rdErr
+	}
+
+	return err
+}
+
+// decodePackets decodes and processes all of the packets that are present in
+// the receive buffer.
+func (conn *obfs4Conn) decodePackets() error {
 	var (
 		decoded [framing.MaximumFramePayloadLength]byte
 		err     error
@@ -169,12 +183,6 @@ bufferLoop:
 		default:
 			// Ignore unknown packet types.
 		}
-	}
-
-	// Read errors (all fatal) take priority over various frame processing
-	// errors.
-	if rdErr != nil {
-		return rdErr
 	}
 
 	return err
